@@ -45,6 +45,7 @@ pub fn wire_oracle(rep: &mut CaseReport, oracle_prefix: &str, c2s: &[u8], hist: 
     for e in &exps {
         if !e.defined {
             rep.count("c01.channel_expectation_undefined", 1);
+            per_ch.remove(&e.ch);
             continue;
         }
         let got = per_ch.remove(&e.ch).unwrap_or_default();
